@@ -35,18 +35,33 @@ type vxC16TrStep struct {
 type vxC16TrCase struct {
 	Proto   int           `json:"proto"`
 	N       int           `json:"n"`
-	PortMap bool          `json:"port_map"` // the public port differs per node (9042 + 1000 x)
+	PortMap bool          `json:"port_map"` // the translator also maps the port (+ 1000 x)
+	Direct  bool          `json:"direct,omitempty"`       // no translation: the reported addresses are the reachable ones
+	V4      bool          `json:"v4,omitempty"`           // a Cassandra 4.0 cluster: system.peers_v2 with native_port (UP events wait 10 s for x.0 / x.1 releases: not generated)
+	Ports   bool          `json:"own_ports,omitempty"`    // V4 only: every node but the first listens on a port of its own (9042 + 100 x), reported as native_port
 	Policy  int           `json:"policy"`   // 0 round robin, 1 token aware over round robin
 	Steps   []vxC16TrStep `json:"steps"`
 }
 
-func vxC16TrPublic(private string, portMap bool) (string, int) {
+// public: where the client reaches the node that reports the private address.
+func (c *vxC16TrCase) public(private string) (string, int) {
 	x, _ := strconv.Atoi(private[strings.LastIndex(private, ".")+1:])
-	port := 9042
-	if portMap {
+	port := c.listen(x)
+	if c.Direct {
+		return private, port
+	}
+	if c.PortMap {
 		port += 1000 * x
 	}
 	return "10.9.0." + strconv.Itoa(x), port
+}
+
+// listen: the port node x (1-based, as in its address) listens on and reports.
+func (c *vxC16TrCase) listen(x int) int {
+	if c.V4 && c.Ports && x > 1 {
+		return 9042 + 100*x
+	}
+	return 9042
 }
 
 func vxRunC16Translated(c *vxC16TrCase, k *vstats.Case) error {
@@ -55,7 +70,14 @@ func vxRunC16Translated(c *vxC16TrCase, k *vstats.Case) error {
 	}
 	const spare = 3
 	specs := vxSpecs(c.N+spare, 2)
+	for i := range specs {
+		specs[i].Port = c.listen(i + 1)
+		if c.V4 {
+			specs[i].Version = "4.0.11"
+		}
+	}
 	cl := vnode.NewCluster(specs[:c.N])
+	cl.PeersV2 = c.V4
 	var mu sync.Mutex
 	served := map[string]int{}
 	handler := func(ip string) func(rc *vnode.ReqCtx) {
@@ -69,7 +91,10 @@ func vxRunC16Translated(c *vxC16TrCase, k *vstats.Case) error {
 		}
 	}
 	alias := func(sp vnode.HostSpec) {
-		ip, port := vxC16TrPublic(sp.IP, c.PortMap)
+		if c.Direct {
+			return
+		}
+		ip, port := c.public(sp.IP)
 		cl.SetAlias(net.JoinHostPort(ip, strconv.Itoa(port)), sp.Key(), true)
 	}
 	for i, n := range cl.Nodes() {
@@ -91,7 +116,7 @@ func vxRunC16Translated(c *vxC16TrCase, k *vstats.Case) error {
 		cl.SetTruth(t)
 	}
 	truth()
-	pubIP, pubPort := vxC16TrPublic(specs[0].IP, c.PortMap)
+	pubIP, pubPort := c.public(specs[0].IP)
 	cl.Proto = c.Proto
 	cfg := NewCluster(net.JoinHostPort(pubIP, strconv.Itoa(pubPort)))
 	cfg.ProtoVersion = c.Proto
@@ -105,13 +130,17 @@ func vxRunC16Translated(c *vxC16TrCase, k *vstats.Case) error {
 	}
 	cfg.ReconnectInterval = 0
 	cfg.ReconnectionPolicy = &ConstantReconnectionPolicy{MaxRetries: 1, Interval: 5 * time.Millisecond}
-	cfg.AddressTranslator = AddressTranslatorFunc(func(addr net.IP, port int) (net.IP, int) {
-		if v4 := addr.To4(); v4 != nil && v4[0] == 10 && v4[1] == 0 && v4[2] == 0 {
-			ip, p := vxC16TrPublic(v4.String(), c.PortMap)
-			return net.ParseIP(ip), p
-		}
-		return addr, port
-	})
+	if !c.Direct {
+		cfg.AddressTranslator = AddressTranslatorFunc(func(addr net.IP, port int) (net.IP, int) {
+			if v4 := addr.To4(); v4 != nil && v4[0] == 10 && v4[1] == 0 && v4[2] == 0 {
+				if c.PortMap {
+					port += 1000 * int(v4[3])
+				}
+				return net.IPv4(10, 9, 0, v4[3]), port
+			}
+			return addr, port
+		})
+	}
 	if c.Policy == 1 {
 		cfg.PoolConfig.HostSelectionPolicy = TokenAwareHostPolicy(RoundRobinHostPolicy())
 	} else {
@@ -148,7 +177,7 @@ func vxRunC16Translated(c *vxC16TrCase, k *vstats.Case) error {
 					last = fmt.Sprintf("host %s is a member and is not in the ring", specs[i].IP)
 					continue
 				}
-				ip, port := vxC16TrPublic(specs[i].IP, c.PortMap)
+				ip, port := c.public(specs[i].IP)
 				if h.ConnectAddress().String() != ip || h.Port() != port {
 					last = fmt.Sprintf("host %s is reachable at %s:%d, the ring has it at %s:%d", specs[i].IP, ip, port, h.ConnectAddress(), h.Port())
 					continue
@@ -218,7 +247,14 @@ func vxRunC16Translated(c *vxC16TrCase, k *vstats.Case) error {
 	if err := check("after CreateSession"); err != nil {
 		return err
 	}
-	k.Class(fmt.Sprintf("v%d n=%d portmap=%v policy=%d", c.Proto, c.N, c.PortMap, c.Policy))
+	for _, l := range cl.AllLogs() {
+		if l.Req != nil && l.Req.Kind == "QUERY" && strings.Contains(l.Req.Statement, "system.peers_v2") {
+			k.Class("system.peers_v2 was read")
+			break
+		}
+	}
+	k.Class(fmt.Sprintf("v%d n=%d", c.Proto, c.N))
+	k.Class(fmt.Sprintf("direct=%v portmap=%v cassandra4=%v own-ports=%v policy=%d", c.Direct, c.PortMap, c.V4, c.V4 && c.Ports, c.Policy))
 	pick := func(i int, pred func(int) bool) int {
 		var cands []int
 		for j := range specs {
@@ -240,16 +276,16 @@ func vxRunC16Translated(c *vxC16TrCase, k *vstats.Case) error {
 				continue
 			}
 			what += " " + specs[j].IP
-			s.handleNodeEvent([]frame{&statusChangeEventFrame{change: "DOWN", host: net.ParseIP(specs[j].IP).To4(), port: 9042}})
+			s.handleNodeEvent([]frame{&statusChangeEventFrame{change: "DOWN", host: net.ParseIP(specs[j].IP).To4(), port: specs[j].Port}})
 			up[j] = false
 			k.Class("down event naming the private address")
 		case "up":
 			j := pick(st.I, func(j int) bool { return members[j] && !up[j] })
-			if j < 0 {
+			if j < 0 || c.V4 {
 				continue
 			}
 			what += " " + specs[j].IP
-			s.handleNodeEvent([]frame{&statusChangeEventFrame{change: "UP", host: net.ParseIP(specs[j].IP).To4(), port: 9042}})
+			s.handleNodeEvent([]frame{&statusChangeEventFrame{change: "UP", host: net.ParseIP(specs[j].IP).To4(), port: specs[j].Port}})
 			up[j] = true
 			k.Class("up event naming the private address")
 		case "join":
@@ -297,10 +333,17 @@ func vxRunC16Translated(c *vxC16TrCase, k *vstats.Case) error {
 func TestVxC16Translated(t *testing.T) {
 	vx.Check(t, vx.Prop{
 		ID: "C16", Part: "TestVxC16Translated",
-		Rule: "protocol 1..5, 1..4 nodes that report private addresses 10.0.0.x:9042 the client cannot dial, ClusterConfig.AddressTranslator maps them to 10.9.0.x (optionally port 9042+1000x), round-robin or token-aware policy; 0..6 steps: DOWN / UP status events naming the private address, a node joins / leaves (refresh), plain refresh; after every step (polled up to 10 s): ring = reported members, each at its public address and port, found by its own address and by id, up members have a pool connection and are the only ones that serve queries; non-trivial = a join or leave; distinct by the case",
+		Rule: "protocol 1..5, 1..4 nodes that report private addresses 10.0.0.x the client cannot dial, ClusterConfig.AddressTranslator maps them to 10.9.0.x (optionally port + 1000x), round-robin or token-aware policy; a third of the cases: a Cassandra 4.0 cluster (system.peers_v2, native_port, optionally a listening port of its own per node, with or without translation; no UP events there - the driver waits 10 s before reconnecting to x.0 / x.1 releases); 0..6 steps: DOWN / UP status events naming the private address, a node joins / leaves (refresh), plain refresh; after every step (polled up to 10 s): ring = reported members, each at its public address and port, found by its own address and by id, up members have a pool connection and are the only ones that serve queries; non-trivial = a join or leave; distinct by the case",
 		Draw: func(t *rapid.T) interface{} {
 			c := &vxC16TrCase{Proto: rapid.IntRange(1, 5).Draw(t, "proto"), N: rapid.IntRange(1, 4).Draw(t, "n"), PortMap: rapid.Bool().Draw(t, "portmap"),
-				Policy: rapid.IntRange(0, 1).Draw(t, "policy")}
+				Policy: rapid.IntRange(0, 1).Draw(t, "policy"), V4: rapid.IntRange(0, 2).Draw(t, "cassandra4") == 0}
+			if c.V4 {
+				c.Ports = rapid.Bool().Draw(t, "own_ports")
+				c.Direct = rapid.IntRange(0, 2).Draw(t, "direct") == 0
+			}
+			if c.Direct {
+				c.PortMap = false
+			}
 			for i := rapid.IntRange(0, 6).Draw(t, "steps"); i > 0; i-- {
 				c.Steps = append(c.Steps, vxC16TrStep{Op: rapid.SampledFrom([]string{"down", "down", "up", "join", "leave", "refresh"}).Draw(t, "op"), I: rapid.IntRange(0, 5).Draw(t, "i")})
 			}
